@@ -138,7 +138,11 @@ func genSessionOps(rng *rand.Rand, c *Case, timeout, ooo int64, keys []string, l
 	c.Ops = append(c.Ops, []string{"drain"}, []string{"tick"}, []string{"drain"})
 }
 
-func (c10) Gen(rng *rand.Rand, tier string, idx int) Case {
+func (p c10) Gen(rng *rand.Rand, tier string, idx int) Case {
+	return maybeReset(rng, p.gen0(rng, tier, idx))
+}
+
+func (c10) gen0(rng *rand.Rand, tier string, idx int) Case {
 	var c Case
 	if idx%12 == 10 {
 		// IDLETIMEOUT: idle and busy ticker updates between the rows (forced, natural, live timestamps)
